@@ -293,7 +293,7 @@ V("c06-negation-dropped", "C06", DS, "            if negative_columns[\"phase\"]
 V("c06-comma-wrong-column", "C06", DS, "                im = float(row[column_indices[\"imaginary\"]].replace(\",\", \".\"))", "                im = float(row[column_indices[\"real\"]].replace(\",\", \".\"))", "fire", "_extract_data:imaginary")
 V("c06-degrees-inverted", "C06", DS, "        if degrees:\n            phase = deg_to_rad(phase)", "        if not degrees:\n            phase = deg_to_rad(phase)", "fire", "_extract_data:polar")
 V("c06-single-point", "C06", DS, "    decreasing_f: bool = len(frequency) > 1 and frequency[0] > frequency[1]", "    decreasing_f: bool = frequency[0] > frequency[1]", "fire", "_split_sweeps:index:frequency[1]")
-V("c06-cut-mismatch", "C06", DS, "        real = real[i:]\n", "        real = real[i - 1:]\n", "fire", "_split_sweeps:cuts")
+V("c06-cut-mismatch", "C06", DS, "        real = real[i:]\n", "        real = real[i - 1:]\n", "fire", "_split_sweeps:partition")
 V("c06-mpt-sign", "C06", "data/formats/mpt.py", "        imag.append(-_parse_string_as_float(columns[2]))", "        imag.append(_parse_string_as_float(columns[2]))", "fire", "mpt:columns")
 V("c06-i2b-sign", "C06", "data/formats/i2b.py", "        imag.append(im)", "        imag.append(-im)", "fire", "i2b:columns")
 V("c06-dispatch", "C06", "data/__init__.py", "        \".dfr\": parse_dfr,", "        \".dfr\": parse_dta,", "fire", "get_parsers:.dfr")
@@ -321,3 +321,8 @@ V("c10-candidate-from-all", "C10", KALG, "            suggested_test = [t for t 
 V("c10-limits-widened-after", "C10", KALG, "    return (suggested_test, relative_scores, lower_limit, upper_limit)", "    upper_limit = min(upper_limit, suggested_test.num_RC - 1) if limit_delta < 0 else upper_limit\n    return (suggested_test, relative_scores, lower_limit, upper_limit)", "fire", "_suggest_using_default:return")
 V("c10-benign-sort-key", "C10", KALG, "    suggested_test: KramersKronigResult = sorted(\n        tests,\n        key=lambda t: relative_scores.get(t.num_RC, 0.0),\n        reverse=True,\n    )[0]",
   "    suggested_test: KramersKronigResult = sorted(\n        tests,\n        key=lambda t: -relative_scores.get(t.num_RC, 0.0),\n    )[0]", "silent")
+V("c06-direction-first-last", "C06", DS, "    decreasing_f: bool = len(frequency) > 1 and frequency[0] > frequency[1]", "    decreasing_f: bool = len(frequency) > 1 and frequency[0] > frequency[-1]", "fire", "_split_sweeps:partition")
+VM("c06-benign-separators-constant", "C06", [("data/formats/csv.py", "def parse_csv(", "FALLBACK_SEPARATORS = [\"\\t\", \" \", \";\", \",\"]\n\n\ndef parse_csv("),
+   ("data/formats/csv.py", "        separators: List[str] = [\n            \"\\t\",\n            \" \",\n            \";\",\n            \",\",\n        ]\n", "        separators: List[str] = list(FALLBACK_SEPARATORS)\n")], "silent")
+VM("c06-separators-consumed", "C06", [("data/formats/csv.py", "def parse_csv(", "separators = [\"\\t\", \" \", \";\", \",\"]\n\n\ndef parse_csv("),
+   ("data/formats/csv.py", "        separators: List[str] = [\n            \"\\t\",\n            \" \",\n            \";\",\n            \",\",\n        ]\n", "")], "fire", "parse_csv:separators")
